@@ -11,6 +11,8 @@
  * monomial text and lp_polynomial_check_order, both obtained WITHOUT cleaning the object (coefficient_traverse on
  * the data as it is), so that a missing or wrong re-ordering inside the library stays visible. */
 #include "polyio.h"
+#include "valio.h"
+#include <assignment.h>
 #include <polynomial_vector.h>
 #include "polynomial/polynomial.h"
 #include "polynomial/coefficient.h"
@@ -75,10 +77,87 @@ static int route_check(bin_f op, const lp_polynomial_t* res, const lp_polynomial
   return same;
 }
 
+/* ---- cross-order cases:  xorder <op> <A> <B|-> <k> <order_1> .. <order_k> <val_0> .. <val_n>
+ * order_i = digits of the listed variables, bottom first ("-" = none listed); val_j = valio token of x_j or `none`.
+ * For every order: the operands are built under the PREVIOUS order of the list (the default x0<..<x7 first),
+ * marked external, the order is switched and the operation is run; results separated by " | ".
+ *   gl  gcd lcm            ar  add sub mul           rp  t<main var of A> t<of B> resultant prem (X unless equal)
+ *   cpd t<main var> cont pp derivative               se  s<sgn> value of evaluate
+ *   ri  t<main var> count roots... (X unless the main variable is the unassigned one) */
+static void set_order_digits(const char* s) {
+  int perm[PIO_NV]; int n = 0;
+  if (strcmp(s, "-") != 0) for (; s[n] && n < PIO_NV; ++n) perm[n] = s[n] - '0';
+  pio_set_order(perm, n);
+}
+static void put_text(const lp_polynomial_t* p) { char* t = raw_text(p); printf(" %s", t); free(t); }
+static void put_topvar(const lp_polynomial_t* p) {
+  lp_variable_t v = lp_polynomial_top_variable(p);
+  if (v == lp_variable_null) printf(" t-"); else printf(" t%d", pio_var_index(v));
+}
+static void xorder_case(void) {
+  if (vntok < 6) { printf("badinput"); return; }
+  const char* op = vtok[1]; const char* ta = vtok[2]; const char* tb = vtok[3]; int k = atoi(vtok[4]);
+  if (vntok < 5 + k) { printf("badinput"); return; }
+  lp_assignment_t* m = lp_assignment_new(pio_db);
+  for (int i = 0; 5 + k + i < vntok && i < PIO_NV; ++i) {
+    if (strcmp(vtok[5 + k + i], "none") == 0) continue;
+    lp_value_t v;
+    if (!vio_parse(&v, vtok[5 + k + i])) { printf("badinput"); lp_assignment_delete(m); return; }
+    lp_assignment_set_value(m, pio_x[i], &v); lp_value_destruct(&v);
+  }
+  const char* prev = "01234567";
+  for (int j = 0; j < k; ++j) {
+    set_order_digits(prev);
+    lp_polynomial_t* A = pio_new(ta); lp_polynomial_set_external(A);
+    lp_polynomial_t* B = strcmp(tb, "-") ? pio_new(tb) : NULL; if (B) lp_polynomial_set_external(B);
+    lp_polynomial_t* R = lp_polynomial_new(pio_ctx);
+    set_order_digits(vtok[5 + j]);
+    if (j) printf(" |");
+    if (!strcmp(op, "gl") && B) {
+      if (lp_polynomial_is_zero(A) || lp_polynomial_is_zero(B)) printf(" X");
+      else { lp_polynomial_gcd(R, A, B); put_text(R); lp_polynomial_lcm(R, A, B); put_text(R); }
+    } else if (!strcmp(op, "ar") && B) {
+      lp_polynomial_add(R, A, B); put_text(R); lp_polynomial_sub(R, A, B); put_text(R); lp_polynomial_mul(R, A, B); put_text(R);
+    } else if (!strcmp(op, "rp") && B) {
+      put_topvar(A); put_topvar(B);
+      lp_variable_t va = lp_polynomial_top_variable(A), vb = lp_polynomial_top_variable(B);
+      if (va == lp_variable_null || va != vb) printf(" X");
+      else { lp_polynomial_resultant(R, A, B); put_text(R); lp_polynomial_prem(R, A, B); put_text(R); }
+    } else if (!strcmp(op, "cpd")) {
+      put_topvar(A);
+      if (lp_polynomial_is_zero(A)) printf(" X");
+      else { lp_polynomial_cont(R, A); put_text(R); lp_polynomial_pp(R, A); put_text(R); lp_polynomial_derivative(R, A); put_text(R); }
+    } else if (!strcmp(op, "se")) {
+      printf(" s%d ", lp_polynomial_sgn(A, m));
+      lp_value_t* v = lp_polynomial_evaluate(A, m); vio_print(v); lp_value_delete(v);
+      printf(" s%d", lp_polynomial_sgn(A, m));
+    } else if (!strcmp(op, "ri")) {
+      put_topvar(A);
+      lp_variable_t va = lp_polynomial_top_variable(A);
+      if (va == lp_variable_null || lp_assignment_get_value(m, va)->type != LP_VALUE_NONE) printf(" X");
+      else {
+        size_t n = 0, deg = lp_polynomial_degree(A);
+        lp_value_t* roots = malloc((deg + 1) * sizeof(lp_value_t));
+        lp_polynomial_roots_isolate(A, m, roots, &n);
+        printf(" %zu", n);
+        for (size_t i = 0; i < n; ++i) { putchar(' '); vio_print(&roots[i]); lp_value_destruct(&roots[i]); }
+        free(roots);
+      }
+    } else printf(" UNKNOWN-OP");
+    /* the operand still denotes what it was built from (a public operation cleans it if none has so far) */
+    (void) lp_polynomial_top_variable(A);
+    put_text(A); printf("/%d", lp_polynomial_check_order(A) ? 1 : 0);
+    lp_polynomial_delete(A); if (B) lp_polynomial_delete(B); lp_polynomial_delete(R);
+    prev = vtok[5 + j];
+  }
+  lp_assignment_delete(m);
+}
+
 int main(void) {
   while (next_case()) {
     pio_init(NULL);
     nobj = 0;
+    if (is_op("xorder")) { xorder_case(); pio_done(); end_case(); continue; }
     for (int k = 0; k < vntok; ++k) {
       char* f[8]; int nf = fields(vtok[k], f, 8);
       printf(k ? " ;" : ";");
